@@ -31,6 +31,7 @@ Definition zun (code : Z) (x : Z) : Z :=
   else if code =? 1 then x * x
   else if code =? 2 then x * x * x
   else if code =? 3 then Z.abs x
+  else if code =? 5 then Z.sqrt x          (* Sqrt, used on perfect squares only *)
   else Z.sgn x.
 
 Inductive zop :=
